@@ -145,3 +145,97 @@ def unit(pid):
             o.pop('cex_raw', None); O.append(o)
         O.append(core.structural(base + '/label', rl == lab, 'reg = %r' % (rl,), None, 'path-analysis', 'the branch selected by corners[%r] reports region %r' % (lab, lab)))
     return res
+
+
+BOUND_NATIVE = r"""
+import json, io, contextlib, warnings
+import numpy as np
+warnings.simplefilter('ignore')
+from exactpack.solvers.ehep.ehep import EscapeOfHEProducts as E
+bad = []
+for kw in (dict(), dict(D=1.2, rho_0=2.0, up=0.1, xtilde=1.7)):
+    with contextlib.redirect_stdout(io.StringIO()): s = E(**kw)
+    D, r0 = s.D, s.rho_0
+    for t0 in np.array([0.4, 0.9, 1.6, 2.7, 4.1]) * s.xtilde / D:
+        xs = np.linspace(-1.0, 1.5, 5001) * max(D * t0, s.xtilde)
+        with contextlib.redirect_stdout(io.StringIO()): r = s(xs, t0)
+        lab = r['region']; u = r['velocity']; c = r['sound_speed']; rho = r['density']; p = r['pressure']
+        for i in range(len(xs) - 1):
+            a, b = lab[i], lab[i + 1]
+            if a == b or a not in ('I', 'II', 'III', 'IV', 'V') or b not in ('I', 'II', 'III', 'IV', 'V'): continue
+            h = xs[i + 1] - xs[i]
+            if abs(u[i + 1] - u[i]) > 50 * h * (abs(u[i]) / max(abs(xs[i]), 1e-3) + D / (D * t0)) + 1e-9 or abs(c[i + 1] - c[i]) > 50 * h * D / (D * t0) + 1e-9:
+                bad.append(('jump across %s|%s' % (a, b), kw, float(xs[i]), float(t0), float(u[i]), float(u[i + 1]), float(c[i]), float(c[i + 1])))
+        if t0 < s.xtilde / D:
+            j = int(np.searchsorted(xs, D * t0)) - 2
+            if lab[j] == 'I':
+                m = rho[j] * (D - u[j]); mom = p[j] + rho[j] * (D - u[j]) ** 2
+                if abs(m - r0 * D) > 2e-3 * r0 * D or abs(mom - r0 * D * D) > 2e-3 * r0 * D * D: bad.append(('detonation front mass/momentum', kw, float(t0), float(m), float(r0 * D), float(mom), float(r0 * D * D)))
+print(json.dumps({'reproduced': bool(bad), 'failures': bad[:5]}))
+"""
+
+
+def unit_boundaries():
+    """C02: the five flow regions fit together along the polygon edges computed by the real constructor: continuity of velocity and sound speed across
+    every edge shared by two flow regions (weak discontinuities), the detonation front I|0H satisfies the mass and momentum jump conditions at speed D,
+    the escape front II|0V has zero sound speed, the piston face (edges of III and V with region 00) moves with the piston."""
+    from vc import extract
+    res = {'obligations': [], 'functions': functions() + [{'ref': SRC + '::EscapeOfHEProducts.__init__', 'sha256_16': R.source_hash(R.func_ref(SRC + '::EscapeOfHEProducts.__init__'))}], 'engine_errors': []}; O = res['obligations']
+    hy = [up < D / 4, up > 0]
+    try:
+        reg = regions()
+        ps = [p for p in extract.run_ctor(KEY, {'D': D, 'rho_0': rho_0, 'up': up, 'xtilde': xtilde}, hyps=hy) if p.outcome == 'return']
+        if len(ps) != 1: raise Unsupported('constructor: %d accepting paths' % len(ps))
+        cor = ps[0].value.attrs.get('corners'); hy = hy + list(ps[0].pc)
+        if not isinstance(cor, dict): raise Unsupported('corners is not a dict')
+    except Unsupported as u_:
+        O.append(core.Obl('C02/ehep/extraction', 'open', 'extraction', 0.0, detail=str(u_)[:300])); return res
+    def pts(v):
+        out = []
+        for q in (v.items if hasattr(v, 'items') and not isinstance(v, dict) else v):
+            a, b = (q.items if hasattr(q, 'items') and not isinstance(q, dict) else q)
+            out.append((sp.simplify(sp.sympify(a)), sp.simplify(sp.sympify(b))))
+        return out
+    P = {k: pts(v) for k, v in cor.items()}
+    def edges(poly):
+        return [(poly[i], poly[(i + 1) % len(poly)]) for i in range(len(poly))]
+    def same(e1, e2):
+        z = lambda a, b: sp.simplify(a[0] - b[0]) == 0 and sp.simplify(a[1] - b[1]) == 0
+        return (z(e1[0], e2[0]) and z(e1[1], e2[1])) or (z(e1[0], e2[1]) and z(e1[1], e2[0]))
+    s_ = sp.Symbol('s_edge', positive=True)
+    def on(e):      # generic interior point of the edge
+        (xa, ta), (xb, tb) = e
+        return {x: xa + s_ * (xb - xa), t: ta + s_ * (tb - ta)}
+    flow = ['I', 'II', 'III', 'IV', 'V']; nshared = 0
+    for i, a in enumerate(flow):
+        for b in flow[i + 1:]:
+            for ea in edges(P[a]):
+                for eb in edges(P[b]):
+                    if not same(ea, eb): continue
+                    nshared += 1; sub = on(ea)
+                    for f in ('u', 'cs'):
+                        o = core.prove_zero('C02/ehep/edge_%s|%s/continuity:%s' % (a, b, f), (reg[a][0][f] - reg[b][0][f]).subs(sub), hy + [s_ < 1], goal_text='%s is continuous across the edge shared by regions %s and %s' % (f, a, b), extra_syms={s_})
+                        if o['status'] == 'refuted': o['replay'] = NATIVE
+                        o.pop('cex_raw', None); O.append(o)
+    O.append(core.structural('C02/ehep/shared_edges', nshared >= 5, '%d shared edges between flow regions' % nshared, None, 'path-analysis', 'the five flow regions share at least five edges (vacuity)'))
+    def shared(a, b):
+        return [ea for ea in edges(P[a]) for eb in edges(P[b]) if same(ea, eb)]
+    for e in shared('I', '0H'):
+        sub = on(e); F = reg['I'][0]
+        O.append(core.prove_zero('C02/ehep/detonation_front/speed', ((e[1][0] - e[0][0]) - D * (e[1][1] - e[0][1])), hy, goal_text='the edge I|0H is the line x = D t'))
+        O.append(core.prove_zero('C02/ehep/detonation_front/rh:mass', (F['rho'] * (D - F['u'])).subs(sub) - rho_0 * D, hy + [s_ < 1], goal_text='rho (D - u) == rho_0 D', extra_syms={s_}))
+        O.append(core.prove_zero('C02/ehep/detonation_front/rh:momentum', (F['p'] + F['rho'] * (D - F['u']) ** 2).subs(sub) - rho_0 * D ** 2, hy + [s_ < 1], goal_text='p + rho (D - u)^2 == rho_0 D^2 (p_0 = 0)', extra_syms={s_}))
+        O.append(core.prove_zero('C02/ehep/detonation_front/cj:sonic', (F['u'] + F['cs']).subs(sub) - D, hy + [s_ < 1], goal_text='u + c == D behind the front (Chapman-Jouguet)', extra_syms={s_}))
+    O.append(core.structural('C02/ehep/detonation_front/edge', len(shared('I', '0H')) == 1, '%d edges I|0H' % len(shared('I', '0H')), None, 'path-analysis', 'regions I and 0H share exactly one edge'))
+    for e in shared('II', '0V'):
+        O.append(core.prove_zero('C02/ehep/escape_front/cs=0', (sp.together(2 * (x / t - (x - xtilde) / (t - xtilde / D)) / 4)).subs(on(e)), hy + [s_ < 1], goal_text='x/t - (x - xtilde)/(t - ttilde) == 0 on the edge II|0V (sound speed vanishes at the escape front)', extra_syms={s_}))
+    for a in ('III', 'V'):
+        for e in [e_ for e_ in edges(P[a]) if sp.simplify(e_[0][0] - up * e_[0][1]) == 0 and sp.simplify(e_[1][0] - up * e_[1][1]) == 0]:      # edges lying on the piston path x = up t
+            O.append(core.prove_zero('C02/ehep/piston/%s:u=up' % a, reg[a][0]['u'].subs(on(e)) - up, hy + [s_ < 1], goal_text='velocity on the piston face (edge %s|00) equals the piston velocity' % a, extra_syms={s_}))
+            O.append(core.prove_zero('C02/ehep/piston/%s:path' % a, (e[1][0] - e[0][0]) - up * (e[1][1] - e[0][1]), hy, goal_text='the edge %s|00 is the piston path x = up t' % a))
+    npist = len([o_ for o_ in O if '/piston/' in o_['name']])
+    O.append(core.structural('C02/ehep/piston/edges', npist >= 4, '%d piston obligations' % npist, None, 'path-analysis', 'regions III and V each have an edge on the piston path (vacuity)'))
+    for o_ in O:
+        if o_['status'] == 'refuted': o_['replay'] = BOUND_NATIVE
+    for o_ in O: o_.pop('cex_raw', None)
+    return res
